@@ -5,6 +5,6 @@ CONTRACTS = list(_C) + [FormatValuesLength] + list(CURVE_RESETS)
 
 MANIFEST = {
     "category": "proof",
-    "text": "Points.remove_vertices, CellObject.remove_cells and CellObject.remove_vertices (curves and surfaces) are verified for all geometries, cell lists and index arrays (repeated, unsorted, negative indices included): exactly the requested vertices/cells disappear, survivors keep coordinates and order, every vertex/cell data array is re-cut by the same selection (so each survivor keeps its value), cells are renumbered so that every surviving cell joins the same coordinates and references existing vertices, other data are untouched, and a refused request changes nothing. NumericData.format_length is verified (pad with no-data, refuse longer arrays). Exhaustive small-scope native runs on real curves/surfaces/point clouds (float, integer and text data) cross-check the same statements. NumericData.format_values (any rank: more entries than the geometry are refused) is included, every reduced geometry array is proved to go through its persisting setter, and masked copies of open and closed curves are checked natively (vertex data follow vertices, cell data follow cells, either creation order).",
+    "text": "Points.remove_vertices, CellObject.remove_cells and CellObject.remove_vertices (curves and surfaces) are verified for all geometries, cell lists and index arrays (repeated, unsorted, negative indices included): exactly the requested vertices/cells disappear, survivors keep coordinates and order, every vertex/cell data array is re-cut by the same selection (so each survivor keeps its value), cells are renumbered so that every surviving cell joins the same coordinates and references existing vertices, other data are untouched, and a refused request changes nothing. NumericData.format_length is verified (pad with no-data, refuse longer arrays). Exhaustive small-scope native runs on real curves/surfaces/point clouds (float, integer and text data) cross-check the same statements. NumericData.format_values (any rank: more entries than the geometry are refused) is included, every reduced geometry array is proved to go through its persisting setter, and masked copies of open and closed curves are checked natively (vertex data follow vertices, cell data follow cells, either creation order). Round-5 additions: the Curve.cells / Curve.parts setters reset each other's derived cache (contracts shared with C17), and a file-backed stand-in comparing the state right after a removal with the state after the cached arrays are released and after a re-open.",
     "note": "vertices/cells setters and child.values assignment are call summaries (their write-through is C03's); one child per kind stands for the children list (iterations are independent); numpy selection axioms incl. uniqueness of the increasing enumeration assumed (audited); masked copies (CellObject.copy/Data.copy) are not under contract here.",
 }
